@@ -10,9 +10,16 @@ the `O` cases of the correspondence run.  Where the real pipeline breaks the con
 statements are delimited by the known-finding predicates `kfPrefixAccepted` (C20-K01) and
 `kfPrefixRejected` (C20-K02): `repl_equiv_partial` states the excluded hypotheses explicitly and
 the `_witness` theorems show the model really departs from the spec there.
+
+Second round: for VALID statements the oracle is replaced by the pipeline model of Pipe.lean (the C06 lexer model in
+single mode + `ErrorReturn`'s eof rule + the yacc parser as an online machine `Grammar.status`): `incomplete_iff_prefix`
+and the lexer theorems `lexer_lockstep` / `lexer_eof_monotone` / `lexer_prefix_tokens` are proved for EVERY text and EVERY
+parser, and `repl_equiv_modelled` no longer assumes what the pipeline answers on partial input.  C20-K02 is repaired
+(fix d93e0e4); C20-K01 remains (see `repl_equiv_K01_witness`).
 -/
-import GPy.C20.Proofs
+import GPy.C20.Modelled
 namespace GPy.C20
+open GPy.C06 (Tok LexSt)
 
 variable (W : World)
 
@@ -153,10 +160,19 @@ theorem old_textual_test_witness :
 any other value is echoed as its repr and bound to `_`. -/
 theorem printExpr_eq_displayhook (funs : List FunDef) (v : Val) (g : List (String × Val)) :
     doPrintExpr funs v g = displayhook funs v g := by
-  cases v <;> simp [doPrintExpr, displayhook]
+  cases v with
+  | obj r => cases r <;> simp [doPrintExpr, displayhook, reprErr]
+  | _ => simp [doPrintExpr, displayhook, reprErr]
 
-theorem printExpr_none (funs : List FunDef) (g : List (String × Val)) : doPrintExpr funs .none g = (g, []) := by
+theorem printExpr_none (funs : List FunDef) (g : List (String × Val)) : doPrintExpr funs .none g = (g, [], none) := by
   simp [doPrintExpr]
+
+/-- an exception raised by `repr(value)` while the value is being echoed: nothing is printed, `_` is left at None
+(it was reset before the repr was taken) and the exception is the statement's error – exactly what `sys.displayhook` does -/
+theorem printExpr_repr_raises (funs : List FunDef) (g : List (String × Val)) :
+    doPrintExpr funs (.obj none) g = (setVar g "_" .none, [], some "ZeroDivisionError") ∧
+    displayhook funs (.obj none) g = (setVar g "_" .none, [], some "ZeroDivisionError") := by
+  simp [doPrintExpr, displayhook, reprErr]
 
 /-- the compiler emits PRINT_EXPR exactly for the expression statements of the interactive top-level
 code object (`interactive && depth <= 1`), i.e. the model's hook is the spec's hook -/
@@ -171,11 +187,11 @@ theorem print_expr_spec (body : List Stmt) (ns : NS) : modelRun body ns = specRu
 
 /-- in file (exec) mode and inside function bodies nothing is echoed -/
 theorem modelHook_not_interactive (nest : Nat) (funs : List FunDef) (v : Val) (g : List (String × Val)) :
-    modelHook false nest funs v g = (g, []) := by
+    modelHook false nest funs v g = (g, [], none) := by
   simp [modelHook]
 
 theorem modelHook_nested (nest : Nat) (funs : List FunDef) (v : Val) (g : List (String × Val)) :
-    modelHook true (nest + 1) funs v g = (g, []) := by
+    modelHook true (nest + 1) funs v g = (g, [], none) := by
   simp [modelHook]
 
 /-! ## known findings -/
@@ -187,8 +203,8 @@ theorem contract_excludes_exactly_known_findings (s : Entry W.Code) (l l' : Stri
   first_incomplete_iff_not_kf W s l l' rest hl
 
 /-- **repl_equiv_partial**: `repl_equiv` for every program none of whose statements is in a
-known-finding region (C20-K01: first line accepted as a complete statement; C20-K02: first line
-rejected although the statement continues). -/
+known-finding region (C20-K01: first line accepted as a complete statement; `kfPrefixRejected`: first line
+rejected although the statement continues – the former C20-K02, repaired by fix d93e0e4, no instance known any more). -/
 theorem repl_equiv_partial (prog : List (Item W.Code))
     (hc : ∀ it ∈ prog, match it with
       | .stmt s => EntryOKPartial W s
@@ -229,12 +245,33 @@ theorem repl_equiv_K01_witness :
 def wK02 : World := witnessWorld ["s = 'ab\\\ncd'\n\n"] ["s = 'ab\\\n", "cd'\n"]
 def sK02 : Entry Unit := { lines := ["s = 'ab\\", "cd'"], res := .code () }
 
-/-- C20-K02: a single-quoted string continued with backslash-newline: the first line is reported as a
-syntax error instead of switching to the continuation prompt; the statement is never executed. -/
-theorem repl_equiv_K02_witness :
+/-- C20-K02 as it WAS before fix d93e0e4 (kept for the record; the oracle of `wK02` answers as the unrepaired lexer
+did): a single-quoted string continued with backslash-newline: the first line was reported as a syntax error instead
+of switching to the continuation prompt; the statement was never executed. -/
+theorem repl_equiv_K02_old_witness :
     kfPrefixRejected wK02 sK02 = true ∧
     (runLines wK02 (ready ()) (feed [.stmt sK02])).2 ≠ (specTrace wK02 () [.stmt sK02]).2 ∧
     execs (runLines wK02 (ready ()) (feed [.stmt sK02])).2 = [] := by
+  decide
+
+/-- the world after fix d93e0e4: the lexer in interactive mode reports "unexpected EOF while parsing" when the
+backslash-newline of a single-quoted literal is the end of the input -/
+def wK02fixed : World where
+  Code := Unit
+  NS := Unit
+  compile := fun t =>
+    if t == "s = 'ab\\\ncd'\n\n" then .ok ()
+    else if t == "s = 'ab\\\n" then .error { msg := eofMsg }
+    else .error { msg := "invalid syntax" }
+  run := fun _ ns => (ns, [])
+
+/-- C20-K02 repaired: the same session now is exactly what the specification demands (continuation prompt twice,
+the statement executed once at its terminating empty line) -/
+theorem repl_equiv_K02_fixed :
+    kfPrefixRejected wK02fixed sK02 = false ∧
+    (runLines wK02fixed (ready ()) (feed [.stmt sK02])).2 = (specTrace wK02fixed () [.stmt sK02]).2 ∧
+    (runLines wK02fixed (ready ()) (feed [.stmt sK02])).2.map (·.prompt) = [ContinuationPrompt, ContinuationPrompt, NormalPrompt] ∧
+    execs (runLines wK02fixed (ready ()) (feed [.stmt sK02])).2 = ["s = 'ab\\\ncd'\n\n"] := by
   decide
 
 /-! ## non-vacuity: the contract is satisfiable by a non-trivial program -/
@@ -287,5 +324,117 @@ example : Contract wEx' [.stmt sEx, .skip "# c", .skip "", .stmt sBad, .stmt { l
 once each and reports the bad one (a test of the definitions, by evaluation) -/
 example : ((runLines wEx' (ready ()) (feed [.stmt sEx, .skip "# c", .skip "", .stmt sBad, .stmt { lines := ["b = 2"], res := .code () }])).2.map (·.prompt))
     = ["... ", "... ", "... ", ">>> ", ">>> ", ">>> ", ">>> ", ">>> "] := by decide
+
+
+/-! ## the compile pipeline modelled (second round) -/
+
+section Modelled
+variable {Code NS : Type}
+
+/-- **lexer_lockstep.**  One step of `Lex` on the text `a ++ b` is the same step as on `a` (same token, same new
+state up to the unread remainder `b`), for as long as the step on `a` does not reach the end of `a`. -/
+theorem lexer_lockstep (b : List Char) (s : LexSt) (h : (C06.step s).1.eof = false) :
+    C06.step (ext b s) = (ext b (C06.step s).1, (C06.step s).2) := step_ext b s h
+
+/-- **lexer_eof_monotone.**  Once the lexer has seen the end of the input its `eof` flag stays set: every token
+handed over from then on – the DEDENTs and the NEWLINE queued in interactive mode – is handed over with `x.eof`. -/
+theorem lexer_eof_monotone (s : LexSt) (h : s.eof = true) : (C06.step s).1.eof = true := step_eof_mono s h
+
+/-- **lexer_prefix_tokens.**  For every text `a`, every continuation `b` and every fuel: the tokens the lexer hands
+over for `a` split into `X` (in order) followed by tokens that all carry the flag `eof`, and `X` is also the beginning
+of what it hands over for `a ++ b`.  (Token lists are accumulated in reverse, as in the model.) -/
+theorem lexer_prefix_tokens (a b : List Char) (f : Nat) :
+    ∃ X post more, (runE f (C06.initLex a .single) []).2.1 = post ++ X ∧ (∀ p ∈ post, p.2 = true) ∧
+      (runE f (C06.initLex (a ++ b) .single) []).2.1 = more ++ X := by
+  obtain ⟨X, post, more, _, h1, h2, h3, _, _⟩ := sim b f (C06.initLex a .single) []
+  exact ⟨X, post, more, h1, h2, h3⟩
+
+/-- **incomplete_iff_prefix.**  For EVERY parser `G` (any online machine over tokens) and every text `a` ending in a
+newline that is the beginning of a text `a ++ b` the pipeline compiles to code: the modelled pipeline
+(C06 lexer in single mode → parser → `ErrorReturn`) asks for more input on `a` – "unexpected EOF while parsing" or
+the string-literal-at-EOF message – EXACTLY when the parser gives no verdict of its own on the tokens of `a`,
+i.e. when `a` is a proper prefix of a statement at token level and not itself a statement.  (Hypothesis `hstop`:
+the fuel of the lexer model suffices for `a`.) -/
+theorem incomplete_iff_prefix (G : Grammar Code) (a b : String) (c : Code)
+    (hab : compileM G (a ++ b) = .ok c) (hnl : a.toList.getLast? = some '\n') (hstop : lexStops a = true) :
+    isIncomplete (compileM G a) = true ↔ parserWaiting G a = true :=
+  incomplete_iff_prefix_lemma G a b c hab hnl hstop
+
+/-- … and the sharper form behind it: on a line-prefix of an accepted text neither the lexer nor the parser
+automaton ever reports a syntax error before the end of the input: either the parser returns within the tokens
+common to both texts (then `a` compiles to the same code: the rest of the text is never looked at – the shape of
+C20-K01), or every verdict is reached on a token handed over at the end of the input and a lexer error, if there
+is one, is raised at the end of the input (a string literal running into it). -/
+theorem prefix_never_syntax_error (G : Grammar Code) (a b : String) (c : Code)
+    (hab : compileM G (a ++ b) = .ok c) (hnl : a.toList.getLast? = some '\n') (hstop : lexStops a = true) :
+    compileM G a = .ok c ∨
+    ((∀ v fl, firstVerdict G [] (toksOf a) = some (v, fl) → fl = true) ∧
+     ((lexSingle a.toList).1.err = true → (lexSingle a.toList).1.eof = true)) :=
+  prefix_of_accepted G a b c hab hnl hstop
+
+/-- the oracle contract of a valid statement follows from the pipeline model: "the first line alone needs more
+input" and "so does the text up to an inner empty line" are derived, not assumed -/
+theorem contract_from_model (G : Grammar Code) (run : Code → NS → NS × List Out) (s : Entry Code) (h : EntryOKM G s) :
+    EntryOK (worldOf Code NS G run) s := h.toOK run
+
+/-- **repl_equiv_modelled.**  `repl_equiv` with the compile step of the REPL being the modelled pipeline: for every
+parser `G`, every execution function and every program whose valid statements satisfy `EntryOKM` (complete text
+compiles; the parser gives no verdict on the partial texts; lexer fuel) – statements Python rejects and skipped lines
+still under the oracle contract. -/
+theorem repl_equiv_modelled (G : Grammar Code) (run : Code → NS → NS × List Out) (prog : List (Item Code))
+    (hc : ContractM G run prog) (ns : NS) :
+    runLines (worldOf Code NS G run) (ready ns) (feed prog) =
+      (ready (specTrace (worldOf Code NS G run) ns prog).1, (specTrace (worldOf Code NS G run) ns prog).2) :=
+  repl_equiv (worldOf Code NS G run) prog hc.toContract ns
+
+theorem executed_exactly_once_modelled (G : Grammar Code) (run : Code → NS → NS × List Out) (prog : List (Item Code))
+    (hc : ContractM G run prog) (ns : NS) :
+    execs (runLines (worldOf Code NS G run) (ready ns) (feed prog)).2 = validSrcs prog :=
+  executed_exactly_once (worldOf Code NS G run) prog hc.toContract ns
+
+end Modelled
+
+/-! ### non-vacuity of the modelled contract: a bracketed statement over three lines with an empty line inside -/
+
+def fullEx : List Tok := [.start .single, .name "a", .p .equal, .p .lpar, .num (.int 1), .p .plus, .num (.int 2), .p .rpar, .newline]
+/-- a parser that accepts exactly `a = (1 + 2) NEWLINE` and waits on its proper prefixes -/
+def gEx : Grammar Unit where
+  status := fun T => if T == fullEx then .done (.ok ()) else if T.isPrefixOf fullEx then .more else .dead none
+def sExM : Entry Unit := { lines := ["a = (1 +", "", "2)"], res := .code () }
+
+example : EntryOKM gEx sExM where
+  first := ⟨_, _, rfl, by decide⟩
+  valid := ⟨(), rfl⟩
+  complete := by decide
+  first_stops := by intro l rest h _; simp [sExM] at h; obtain ⟨rfl, _⟩ := h; decide
+  first_waiting := by intro l rest h _; simp [sExM] at h; obtain ⟨rfl, _⟩ := h; decide
+  blank_stops := by
+    intro done rest hd h
+    simp only [sExM] at h
+    rcases done with _ | ⟨d0, _ | ⟨d1, done⟩⟩
+    · exact absurd rfl hd
+    · simp at h; obtain ⟨rfl, _⟩ := h; decide
+    · simp at h
+      rcases done with _ | ⟨d2, done⟩ <;> simp at h
+  blank_waiting := by
+    intro done rest hd h
+    simp only [sExM] at h
+    rcases done with _ | ⟨d0, _ | ⟨d1, done⟩⟩
+    · exact absurd rfl hd
+    · simp at h; obtain ⟨rfl, _⟩ := h; decide
+    · simp at h
+      rcases done with _ | ⟨d2, done⟩ <;> simp at h
+
+/-- the modelled pipeline on the three texts the REPL compiles for that statement, and on a broken variant
+(evaluation of the definitions; the C06 lexer model runs inside the kernel) -/
+example : compileM gEx "a = (1 +\n" = .error { msg := eofMsg } ∧ compileM gEx "a = (1 +\n\n" = .error { msg := eofMsg } ∧
+    compileM gEx "a = (1 +\n\n2)\n\n" = .ok () ∧ compileM gEx "a = (1 +* 2)\n" = .error { msg := lexErrMsg } := by decide
+
+/-- a triple-quoted string and (after fix d93e0e4) a single-quoted string continued by backslash-newline that run
+into the end of the input ask for more input (here with a parser that never gives a verdict); without the backslash the error is final -/
+def gMore : Grammar Unit := ⟨fun _ => .more⟩
+example :
+    isIncomplete (compileM gMore "s = '''ab\n") = true ∧ isIncomplete (compileM gMore "s = 'ab\\\n") = true ∧
+    isIncomplete (compileM gMore "s = 'ab\n") = false := by decide
 
 end GPy.C20
